@@ -40,7 +40,7 @@ pub trait P {
     async fn add(&mut self, a: u8, b: bool) -> zlink_core::Result<Result<Out, PErr>>;
     async fn say(&mut self, text: &str) -> zlink_core::Result<Result<Out, PErr>>;
     async fn opt(&mut self, x: Option<u8>, y: bool) -> zlink_core::Result<Result<Out, PErr>>;
-    #[zlink(rename = "Custom")]
+    #[zlink(rename = "CustomName")]
     async fn renamed_method(&mut self) -> zlink_core::Result<Result<Out, PErr>>;
     async fn ren_param(&mut self, #[zlink(rename = "wireName")] v: u8) -> zlink_core::Result<Result<Out, PErr>>;
     #[zlink(more)]
@@ -172,7 +172,7 @@ pub fn expected<const M: usize>(g: &Args) -> Doc<WCAP> {
             d.lit(if g.b { b"true" } else { b"false" });
             d.lit(b"}}");
         }
-        4 => d.lit(b"{\"method\":\"org.ex.P.Custom\"}"),
+        4 => d.lit(b"{\"method\":\"org.ex.P.CustomName\"}"),
         5 => {
             d.lit(b"{\"method\":\"org.ex.P.RenParam\",\"parameters\":{\"wireName\":");
             dec(&mut d, g.a);
